@@ -448,6 +448,8 @@ class Sim:
         self.procs_started = 0
         self.any_exit = False
         self.model_target = config['procs']
+        self.cb_thread = None
+        self.in_scan = False
         self.excluded = {}
         kw = dict(
             processes=config['procs'], threads=config.get('threads', True),
@@ -461,6 +463,18 @@ class Sim:
         )
         self.pool = SimPool(self, **kw)
         self.pool._result_handler.poll = self.poll
+        # the shutdown path reaps through the result handler: note when
+        real_join = self.pool._result_handler.join_exited_workers
+
+        def join_exited_workers(shutdown=False):
+            before = set(p.pid for p in self.pool._pool)
+            try:
+                return real_join(shutdown=shutdown)
+            finally:
+                for pid in before - set(p.pid for p in self.pool._pool):
+                    self.reaps.setdefault(pid, CLOCK.now)
+                    self.by_pid[pid].reaped = True
+        self.pool._result_handler.join_exited_workers = join_exited_workers
         self.procs_at_start = len(self.procs)
 
     # -- registry ---------------------------------------------------------
@@ -596,6 +610,7 @@ class Sim:
         proc.last_delivered = msg
         self._late_ready_msg = False
         self._deliver_msg(msg)
+        self.finish_callback_scan()
         if self._late_ready_msg:
             proc.late_readies += 1
         return True
@@ -672,10 +687,15 @@ class Sim:
         def cb(v):
             mj.cb['callback'] += 1
             mj.order.append('callback')
+            if mj.opts.get('cbscan') and mj.cb['callback'] == 1:
+                self.scan_during_callback(mj)
 
         def ecb(v):
             mj.cb['error'] += 1
             mj.order.append('error')
+            if mj.opts.get('cbscan') and mj.cb['error'] == 1 and \
+                    not mj.cb['callback']:
+                self.scan_during_callback(mj)
 
         def acb(pid, t):
             mj.cb['accept'] += 1
@@ -685,6 +705,66 @@ class Sim:
         def tcb(soft, timeout):
             mj.cb['timeout'].append((soft, timeout, len(self.signals)))
         return cb, ecb, acb, tcb
+
+    def scan_during_callback(self, mj):
+        """The result callback of ``mj`` is running in the result handler (this
+        thread).  Meanwhile time passes and the timeout scanner - a real second
+        thread - does a scan.  If the job still looks unfinished to it, it
+        blocks on the job's mutex until the callback returns."""
+        if self.pool._timeout_handler is None or self.cb_thread is not None \
+                or self.in_scan or self.in_join:
+            return
+        CLOCK.now += mj.opts['cbscan']
+        self.labels.add('scan_during_callback')
+        self.cb_job = mj
+        self.cb_sigpos = len(self.signals)
+        self.cb_tcb = len(mj.cb['timeout'])
+        self.cb_error = []
+        # jobs whose result had been consumed before this scan started
+        self.cb_ready = set(
+            j.idx for j in self.jobs
+            if j.handle is not None and j.kind in ('apply', 'map', 'starmap')
+            and j.handle.ready())
+
+        def scan():
+            try:
+                self.obey_term = True
+                self.pool._timeout_handler.handle_event()
+            except BaseException as exc:      # reported by the oracle
+                self.cb_error.append(exc)
+        self.cb_thread = threading.Thread(target=scan, daemon=True)
+        self.cb_thread.start()
+        self.cb_thread.join(0.25)
+
+    def finish_callback_scan(self):
+        th, self.cb_thread = self.cb_thread, None
+        if th is None:
+            return
+        th.join(10)
+        if th.is_alive():
+            raise SimHarnessError('scanner thread did not finish')
+        if self.cb_error:
+            raise self.cb_error[0]
+        mj = self.cb_job
+        part = mj.parts.get(None)
+        owner = part.owner if part else None
+        sigs = [s for s in self.signals[self.cb_sigpos:] if s[0] == owner]
+        tcb = mj.cb['timeout'][self.cb_tcb:]
+        orc = getattr(self, 'oracle', None)
+        if not (sigs or tcb) and orc is not None and (
+                orc.on('c05') or orc.on('c06')):
+            # what this scan did to the other jobs is judged like any scan
+            self.scan_sigpos = self.cb_sigpos
+            self.scan_resolved = set([mj.idx]) | self.cb_ready
+            orc.check_scan()
+        if sigs or tcb:
+            raise Violation(
+                'C05/signal-after-result' if any(
+                    s[1] != int(bp.SIG_SOFT_TIMEOUT) for s in sigs) or any(
+                        not t[0] for t in tcb) else 'C06/soft-after-result',
+                'job %d: its result had been consumed (its callback was running) '
+                'when a scan sent signals %r / ran timeout callbacks %r' % (
+                    mj.idx, [s[1] for s in sigs], [t[:2] for t in tcb]))
 
     def op_apply(self, spec, arg, opts, autofeed=False):
         r = self._op_apply(spec, arg, opts)
@@ -961,7 +1041,11 @@ class Sim:
         if CLOCK.hook is None:
             self.scan_resolved = set()
         self.scan_sigpos = len(self.signals)
-        pool._timeout_handler.handle_event()
+        self.in_scan = True
+        try:
+            pool._timeout_handler.handle_event()
+        finally:
+            self.in_scan = False
         self.scans = getattr(self, 'scans', 0) + 1
         self.last_scan = CLOCK.now
 
@@ -1135,6 +1219,21 @@ class Sim:
             mj = self.by_jobid.get(proc.current[0])
             if mj is not None and mj.kind in ('imap', 'imap_unordered'):
                 return self.exclude('imap-part-owner-dies')
+        if self.closed and not self.allowed('close-unsupervised'):
+            # after close() nobody replaces workers (D10), but the shutdown path
+            # still has to report the loss of a job that was running: allowed
+            # when nothing is queued (nothing can strand) and the job's
+            # lost-worker timeout is shorter than the result handler's 5 s
+            # "all workers gone" patience
+            mj = self.by_jobid.get(proc.current[0]) if proc.state == RUNNING \
+                else None
+            queued = any(not p.taken for j in self.jobs if j.handle is not None
+                         for p in j.parts.values())
+            if mj is None or mj.kind != 'apply' or queued or \
+                    (mj.lost_timeout or 10) > 2.0 or \
+                    any(m[0] == ACK for m in proc.outbox):
+                return self.exclude('fault-after-close')
+            self.labels.add('death_after_close')
         if proc.state == RUNNING:
             self.labels.add('death_running')
         else:
@@ -1223,6 +1322,50 @@ class Sim:
             self.w_finish(proc)
         self.deliver(proc)
 
+    def op_lastgasp(self, k, status):
+        """composite: everything queued gets done, the pool is closed, then a
+        worker that is still running an apply job dies - the loss has to be
+        reported by the shutdown path (nobody strands: nothing is queued)"""
+        if self.closed:
+            return 'noop'
+        self.drain_taskqueue()
+
+        def victims():
+            out = []
+            for p in self.alive_workers():
+                if p.state == RUNNING:
+                    mj = self.by_jobid.get(p.current[0])
+                    if mj is not None and mj.kind == 'apply' and \
+                            (mj.lost_timeout or 10) <= 2.0:
+                        out.append(p)
+            return out
+        vs = victims()
+        proc = self._pick(vs, k)
+        if proc is None:
+            return 'noop'
+        for _ in range(200):            # let the others finish what is queued
+            if not self.fifo:
+                break
+            moved = False
+            for p in self.alive_workers():
+                if p is proc:
+                    continue
+                if p.state == RUNNING:
+                    self.w_finish(p)
+                    moved = True
+                elif p.state == IDLE and self.fifo and self.fifo[0] is not None:
+                    self.w_take(p)
+                    moved = True
+                while p.outbox:
+                    self.deliver(p)
+            if not moved:
+                break
+        while proc.outbox:
+            self.deliver(proc)
+        if self.fifo or self.op_close() is not None:
+            return 'noop'
+        return self.op_die(self.alive_workers().index(proc), status)
+
     def op_run(self, k):
         """composite: worker k takes a task and its ACK is delivered (the job
         is now running with a known accept time)"""
@@ -1238,7 +1381,7 @@ class Sim:
     # -- dispatch --------------------------------------------------------------------
     AFTER_CLOSE_OK = ('run', 'take', 'finish', 'deliver', 'work', 'feed', 'adv', 'dup',
                       'wexit', 'join', 'quiesce', 'close', 'apply', 'map', 'imap',
-                      'tick', 'discard')
+                      'tick', 'discard', 'die')
 
     def allowed(self, zone):
         allow = self.config.get('allow')
